@@ -368,7 +368,12 @@ def plan_pairs(run, tier, rng):
     rand_docs = [(f"rand{i}", G.random_doc(random.Random(rng.randrange(1 << 30)), n_models=rng.randint(3, 6), depth=rng.randint(1, 3))) for i in range(n_rand)]
     if tier == "quick":
         atlas = [d for d in atlas if not d[0].startswith("unions")] + [d for d in atlas if d[0].startswith("unions")][:2]
-    docs = atlas + site_docs + rand_docs
+    # referenced components with their own defaults, reached through bare references and through wrappers
+    rd_docs = [("refdefaults0", RW.refdefaults_doc(random.Random(rng.randrange(1 << 30)))),
+               ("refdefaults1", RW.refdefaults_doc(random.Random(rng.randrange(1 << 30)), wrapped=set(rng.sample(RW.DEFAULTED, 5))))]
+    if tier == "thorough":
+        rd_docs += [(f"refdefaults{i}", RW.refdefaults_doc(random.Random(rng.randrange(1 << 30)), wrapped=set(rng.sample(RW.DEFAULTED, rng.randint(0, 8))))) for i in range(2, 10)]
+    docs = atlas + rd_docs + site_docs + rand_docs
 
     def add(label, family, a, sa, b, sb, sites=None, expect=None, cfg=None):
         pairs.append({"label": label, "family": family, "doc_a": a, "spec_a": sa, "doc_b": b, "spec_b": sb, "sites": sites or [], "expect": expect, "cfg": cfg})
@@ -398,9 +403,14 @@ def plan_pairs(run, tier, rng):
     reps = 1 if tier == "quick" else 3
     for label, d in docs:
         fam_sets = [("b",), ("c",), ("d",), ("e",), ("b", "c", "d", "e")] if label.startswith("site") else [("b", "d"), ("d",)]
+        if label.startswith("refdefaults"):
+            fam_sets = [("d!",), ("d",), ("d",)]
         for fams in fam_sets:
             for _ in range(reps):
-                b, sites = RW.apply_family(d, fams, rng, p=rng.choice([0.3, 0.6, 1.0]))
+                pr = rng.choice([0.3, 0.6, 1.0])
+                if fams == ("d!",):       # every reference <-> wrapper at once
+                    fams, pr = ("d",), 1.0
+                b, sites = RW.apply_family(d, fams, rng, p=pr)
                 if sites:
                     cfg = {"literal_enums": True} if rng.random() < 0.15 else None
                     add(label, "+".join(fams), d, JSON_FILE, b, JSON_FILE, sites=sites, cfg=cfg)
